@@ -85,10 +85,11 @@ Proof.
 Qed.
 
 Section Collapse.
+  Variable P : nat -> Prop.
   Variables (E : list (nat * nat)) (st : truf) (x y xs ys : nat).
   Let E' := E ++ [(x, y)].
   Hypothesis Hc : cinv E' st.
-  Hypothesis Hp : pres (fun _ => False) st.
+  Hypothesis Hp : pres P st.
   Hypothesis Hcm : compl E st.
   Hypothesis Hids : forall z, mentioned E' z -> aget z (t_ids st) <> None.
   Hypothesis Hdx : dominant st xs.
@@ -537,24 +538,29 @@ Section Collapse.
     - split; [exact Hdy|congruence].
   Qed.
 
-  Lemma pres_key : forall d, dominant st d -> ahas d C = true /\ ahas d R = true.
-  Proof. intros d Hd. destruct (Hp d Hd) as [[]|H]; exact H. Qed.
+  (* the two unwraps at the head of the branch are guarded by the back edge itself *)
+  Lemma ahas_nonempty : forall (m : mset) k v, In v (eget k m) -> ahas k m = true.
+  Proof. intros m k v H. unfold ahas, eget in *. destruct (aget k m); [reflexivity|destruct H]. Qed.
+  Lemma key_ys : ahas ys C = true.
+  Proof. apply (ahas_nonempty C ys xs). exact Hback. Qed.
+  Lemma key_xs : ahas xs R = true.
+  Proof. apply (ahas_nonempty R xs ys). apply (cconv ys xs); [congruence|exact Hback]. Qed.
 
   Lemma ahas_Ct : forall d, ahas d C = true -> ahas d Ct = true.
   Proof. intros d H. unfold Ct. rewrite !ahas_aset, H, !orb_true_r. reflexivity. Qed.
   Lemma ahas_Rt : forall d, ahas d R = true -> ahas d Rt = true.
   Proof. intros d H. unfold Rt. rewrite !ahas_aset, H, !orb_true_r. reflexivity. Qed.
-  Lemma ahas_c8 : forall d, dominant st d -> ahas d c8 = true.
+  Lemma ahas_c8 : forall d, ahas d C = true \/ d = xs -> ahas d c8 = true.
   Proof.
-    intros d Hd. destruct (pres_key d Hd) as [H1 _].
+    intros d Hd.
     apply fixc_fold_ahas; left. apply fixc_fold_ahas; left.
-    apply (asc_present Ct Rt xs ys Hne d). left. apply ahas_Ct; exact H1.
+    apply (asc_present Ct Rt xs ys Hne d). destruct Hd as [H1| ->]; [left; apply ahas_Ct; exact H1|right; left; reflexivity].
   Qed.
-  Lemma ahas_r8 : forall d, dominant st d -> ahas d r8 = true.
+  Lemma ahas_r8 : forall d, ahas d R = true \/ d = xs -> ahas d r8 = true.
   Proof.
-    intros d Hd. destruct (pres_key d Hd) as [_ H1].
+    intros d Hd.
     apply fixr_fold_ahas; left. apply fixr_fold_ahas; left.
-    apply (asc_present Ct Rt xs ys Hne d). left. apply ahas_Rt; exact H1.
+    apply (asc_present Ct Rt xs ys Hne d). destruct Hd as [H1| ->]; [left; apply ahas_Rt; exact H1|right; left; reflexivity].
   Qed.
 
   Definition final (st6 : truf) : truf :=
@@ -593,7 +599,7 @@ Section Collapse.
     split; [|split; [exact Hs6|split; [exact Hids6|split; [exact Hn6|split; [exact Hc6|split; [exact Hr6|
              split; [apply Hkc; apply good_c8|split; [apply Hkr; apply good_r8|split; [exact Hd6|split; [exact Hm6|exact Hdt6]]]]]]]]]].
     unfold collapse_branch.
-    destruct (pres_key ys Hdy) as [Hky _]. destruct (pres_key xs Hdx) as [_ Hkx].
+    pose proof key_ys as Hky. pose proof key_xs as Hkx.
     rewrite (aget_eget ys (t_conn st) Hky), (aget_eget xs (t_rev st) Hkx). cbn [of_opt bind].
     fold C R cy rx tbm. rewrite !aget_aset_eq. cbn [of_opt bind]. fold Ct Rt.
     assert (Hm : smem ys (eget xs (t_conn (with_cr st Ct Rt))) = false).
@@ -602,7 +608,7 @@ Section Collapse.
     unfold merge_multiple. cbn [t_conn t_rev with_cr]. rewrite sides_eq.
     change (with_cr (with_cr (with_cr st Ct Rt) C6 R6) c8 r8) with st5. fold l. rewrite Hrun. cbn [bind].
     rewrite (Hc6 xs), (Hr6 xs), Hxl.
-    rewrite (aget_eget xs c8 (ahas_c8 xs Hdx)), (aget_eget xs r8 (ahas_r8 xs Hdx)). cbn [of_opt bind].
+    rewrite (aget_eget xs c8 (ahas_c8 xs (or_intror eq_refl))), (aget_eget xs r8 (ahas_r8 xs (or_intror eq_refl))). cbn [of_opt bind].
     set (st7 := with_cr st6 _ _).
     assert (Hdj : disjoint_ok st7 = true).
     { unfold disjoint_ok, st7; cbn [t_sets with_cr]. apply disjoint_from_ok; [apply (s_sets_nodup st6 Hs6)|intros ? ? []]. }
@@ -914,7 +920,7 @@ Section Collapse.
       intros j Hj. apply domF. rewrite <- Hc' in Hj. apply (Hrange k j Hj).
     Qed.
 
-    Theorem final_inv : tinv E' Fn.
+    Theorem final_inv : tinvP P E' Fn.
     Proof.
       constructor.
       - exact (s_subs_range st6 Hs6).
@@ -936,11 +942,12 @@ Section Collapse.
       - apply (wfF (t_conn st6) c8 good_c8 Hkc Hc6). intros a b H. apply (cnF_D' a b H).
       - apply (wfF (t_rev st6) r8 good_r8 Hkr Hr6). intros a b H. apply (rvF_D' a b H).
       - intros d Hd. apply domF in Hd. unfold Fn, final; cbn [t_conn t_rev]. rewrite !ahas_aset.
-        destruct (Nat.eqb_spec d xs) as [->|Hdxs]; [split; reflexivity|]. cbn [orb].
+        destruct (Nat.eqb_spec d xs) as [->|Hdxs]; [right; split; reflexivity|]. cbn [orb].
         pose proof Hd as [Hd1 [Hd2 Hd3]].
         assert (Hl : existsb (Nat.eqb d) l = false).
         { destruct (existsb (Nat.eqb d) l) eqn:Ed; [|reflexivity]. apply lk, in_l in Ed. tauto. }
-        unfold ahas. rewrite Hc6, Hr6, Hl. split; [apply (ahas_c8 d Hd1)|apply (ahas_r8 d Hd1)].
+        destruct (Hp d Hd1) as [Hpd|[K1 K2]]; [left; exact Hpd|right].
+        unfold ahas. rewrite Hc6, Hr6, Hl. split; [apply (ahas_c8 d (or_introl K1))|apply (ahas_r8 d (or_introl K2))].
       - exact (s_nonempty st6 Hs6).
       - intros a b Hab. rewrite (cnF_rel a b Hab), (rvF_rel a b Hab). reflexivity.
       - intros a b c Hab Hbc Hac.
@@ -963,15 +970,15 @@ Section Collapse.
     Qed.
   End Final.
 
-  Theorem collapse_main : exists st', collapse_branch st x y xs ys = Ok (st', true) /\ tinv E' st'.
+  Theorem collapse_main : exists st', collapse_branch st x y xs ys = Ok (st', true) /\ tinvP P E' st'.
   Proof.
     destruct collapse_run as [st6 [Hrun [Hs6 [Hids6 [Hn6 [Hc6 [Hr6 [Hkc [Hkr [Hd6 [Hm6 Hdt6]]]]]]]]]]].
     exists (final st6). split; [exact Hrun|]. apply final_inv; assumption.
   Qed.
 End Collapse.
 
-Theorem collapse_spec : mm_collapse_stmt -> collapse_ok_stmt.
+Theorem collapse_spec : forall {P : nat -> Prop}, mm_collapse_stmt -> collapse_ok_stmt P.
 Proof.
-  intros Hmc E st x y xs ys Hc Hp Hcm Hids Hdx Hdy Hne Hmx Hmy Hback.
-  apply (collapse_main E st x y xs ys); assumption.
+  intros P Hmc E st x y xs ys Hc Hp Hcm Hids Hdx Hdy Hne Hmx Hmy Hback.
+  apply (collapse_main P E st x y xs ys); assumption.
 Qed.
